@@ -455,9 +455,9 @@ def _scale_edges(state):
 PRF_KEYS = ["Precision", "Recall", "F-measure"]
 TASK.edge_space = edge_space
 TASK.edges = {
-    "shift": {"apply": _shift_edges, "funcs": None, "keys": None},
+    "shift": {"apply": _shift_edges, "funcs": None, "keys": None, "cfgs": "all"},
     # which maximum matching is returned may depend on the input order, so only P/R/F (which depend on its size) are
     # claimed under note permutations - exactly what the property states
-    "permute": {"apply": _perm_edges, "funcs": None, "keys": PRF_KEYS},
+    "permute": {"apply": _perm_edges, "funcs": None, "keys": PRF_KEYS, "cfgs": "all"},
     "pitchscale": {"apply": _scale_edges, "funcs": None, "keys": None},
 }
